@@ -6,6 +6,8 @@ pub(super) async fn read_header<R>(reader: &mut R) -> io::Result<(u8, u8, Option
 where
     R: AsyncRead + Unpin,
 {
+    use crate::io::reader::index::validate_min_shift_and_depth;
+
     let min_shift = reader
         .read_i32_le()
         .await
@@ -15,6 +17,8 @@ where
         .read_i32_le()
         .await
         .and_then(|n| u8::try_from(n).map_err(|e| io::Error::new(io::ErrorKind::InvalidData, e)))?;
+
+    validate_min_shift_and_depth(min_shift, depth)?;
 
     let header = read_aux(reader).await?;
 
